@@ -258,6 +258,13 @@ func runProgramInner(impl string, p program, faults []int, randFault bool) (res 
 			}
 			if cerr != nil {
 				clear()
+				// no reader is running any more and the Close has failed: until it is retried the pages that still hold
+				// the secret must not be left readable
+				if impl == "protectedmemory" {
+					for _, reg := range mc.ReadableNonZero() {
+						add("c12-readable-after-failed-close", "pending Close failed (%v) with no reader left and the region %#x, which still holds the secret, is left %s", cerr, reg.Base, reg.Prot)
+					}
+				}
 				if r2 := s.Close(); r2 != nil {
 					add("c12-close-not-retriable", "pending Close failed (%v) and the retry failed too: %v", cerr, r2)
 				}
